@@ -202,8 +202,10 @@ class Check(Op):
 
     def payload(self, v):
         return st.fixed_dictionaries({"uid": uid_s}, optional={
-            "count": st.integers(0, 10 ** 6), "mask": st.integers(1, 0xFFFFF),
-            "lease": st.integers(0, 10 ** 6)})
+            # zero is a value like any other: a constraint that is present and zero is reported
+            "count": st.one_of(st.just(0), st.integers(0, 10 ** 6)),
+            "mask": st.one_of(st.just(0), st.integers(0, 0xFFFFF)),
+            "lease": st.one_of(st.just(0), st.integers(0, 10 ** 6))})
 
     def enc(self, p, v):
         out = [T.encode_text(W.UNIQUE_IDENTIFIER, p["uid"])]
@@ -245,8 +247,8 @@ def resp_attr_s(v):
     two = tuple(v) >= (2, 0)
     idx = st.just(None) if two else opt(st.integers(0, 3))
     cands = [
-        ("Cryptographic Algorithm", alg_s), ("Cryptographic Length", st.integers(1, 4096)),
-        ("Cryptographic Usage Mask", st.integers(1, 0xFFFFF)), ("State", st.integers(1, 6)),
+        ("Cryptographic Algorithm", alg_s), ("Cryptographic Length", st.integers(0, 4096)),
+        ("Cryptographic Usage Mask", st.integers(0, 0xFFFFF)), ("State", st.integers(1, 6)),
         ("Object Type", st.sampled_from([1, 2, 3, 4, 5, 7, 8])),
         ("Name", st.fixed_dictionaries({"v": text_s, "t": st.integers(1, 2)})),
         ("Initial Date", date_s), ("Unique Identifier", uid_s), ("Object Group", text_s),
